@@ -110,20 +110,11 @@ def unpack (O : Oracle) (cx : Cx) (fx : Fx) : Ty → V → R V
       | _ => pure (.coll o r)
   | .map o k t, v => do
       let kvs ← pyItems v
-      let r ← kvs.mapM (fun kv => do
-        let a ← unpack O cx fx k kv.1
-        let b ← (if o == .counter then O.run .int kv.2 else unpack O cx fx t kv.2)
-        if pyHashable a then pure (a, b) else raisePy .typeError)
+      let r ← kvs.mapM (kvMH (unpack O cx fx k) (if o == .counter then O.run .int else unpack O cx fx t))
       pure (.map o r)
   | .chain k t, v => do
       let ms ← pyIter v
-      let r ← ms.mapM (fun m => do
-        let kvs ← pyItems m
-        let r ← kvs.mapM (fun kv => do
-          let a ← unpack O cx fx k kv.1
-          let b ← unpack O cx fx t kv.2
-          if pyHashable a then pure (a, b) else raisePy .typeError)
-        pure (V.map .dict r))
+      let r ← ms.mapM (itemsM (kvMH (unpack O cx fx k) (unpack O cx fx t)))
       pure (.coll .chainmap r)
   | .tvar t, v => do
       let xs ← pyIter v
@@ -257,11 +248,10 @@ def unpackFields (O : Oracle) (cx : Cx) (cls : String) (cfg : Cfg) :
                 let r ← unpackFields O cx cls cfg fs kvs
                 pure ((f.name, dv) :: r)
         | some x =>
-            let isNone := match x with | .none => true | _ => false
             if t.unpackIdent then do
               let r ← unpackFields O cx cls cfg fs kvs
               pure ((f.name, x) :: r)
-            else if fieldCouldBeNone f t && isNone then do
+            else if fieldCouldBeNone f t && isNone x then do
               let r ← unpackFields O cx cls cfg fs kvs
               pure ((f.name, V.none) :: r)
             else
